@@ -43,7 +43,7 @@ func processReadBuf(rb []byte, searchDepth int) []byte {
 
 func (c *Channel) read() {
 	defer func() {
-		c.readLoopExited = true
+		c.readLoopExited.Store(true)
 	}()
 
 	for {
@@ -122,7 +122,7 @@ func (c *Channel) Read() ([]byte, error) {
 	default:
 	}
 
-	if c.readLoopExited {
+	if c.readLoopExited.Load() {
 		return nil, util.ErrConnectionError
 	}
 
